@@ -178,6 +178,9 @@ pub fn cli(
             eprintln!("{}", stats.to_json());
         }
         "run" => {
+            // VERIF_LINE_FLUSH=1: flush after every answer, so that after a crash or a hang the first
+            // case without an answer is the culprit (used by `check` to pinpoint it)
+            let line_flush = std::env::var("VERIF_LINE_FLUSH").is_ok();
             let stdin = std::io::stdin();
             for line in stdin.lock().lines() {
                 let line = line.unwrap();
@@ -188,6 +191,9 @@ pub fn cli(
                 let r = run_case(t);
                 w.write_all(r.as_bytes()).unwrap();
                 w.write_all(b"\n").unwrap();
+                if line_flush {
+                    w.flush().unwrap();
+                }
             }
             w.flush().unwrap();
         }
